@@ -506,7 +506,9 @@ Record case := mk {
   c_opts : opts;
   c_all : bool;               (* no include/exclude filter *)
   c_tab : ftab;               (* SelectFilter answers observed from the real filter functions *)
-  c_post : view               (* whole world after (observed) *)
+  c_post : view;              (* whole world after (observed) *)
+  c_out_xattr : bool          (* observed: some entry outside the target carries an extended attribute afterwards
+                                 (none does before) *)
 }.
 
 (* static well-formedness of an event list *)
@@ -546,7 +548,8 @@ Definition outside (T : path) (p : path) : bool := negb (prefixb T p).
 
 (* verified oracle: everything outside the target is exactly as before *)
 Definition check_C18 (c : case) : bool :=
-  agree_on (outside (c_T c)) (fs_of_view (c_pre c)) (fs_of_view (c_post c)).
+  andb (agree_on (outside (c_T c)) (fs_of_view (c_pre c)) (fs_of_view (c_post c)))
+       (negb (c_out_xattr c)).
 
 (* codes: 0 ok; 1 model <> implementation (whole world compared); 2 outside of the target changed;
    3 the traversal events of this case are not well-formed (proof hypothesis not met) *)
